@@ -36,9 +36,16 @@ def main():
         assert sh(["git", "-C", "/repo", "worktree", "add", "-q", "--detach", wt, "HEAD"])[0] == 0
         res = dict(seed=sid, repo_head=head, checks={})
         try:
+            # the newest re-make of the change first (patches whose lines later repairs changed are re-made by hand), the
+            # agent's own patch last; a candidate must apply AND build
             used = None
-            for cand in [os.path.join(d, "patch.diff")] + sorted(glob.glob(os.path.join(d, "patch.rebased*.diff"))):
-                if sh(["git", "apply", "--check", cand], cwd=wt)[0] == 0:
+            for cand in sorted(glob.glob(os.path.join(d, "patch.rebased*.diff")), reverse=True) + [os.path.join(d, "patch.diff")]:
+                if sh(["git", "apply", "--check", cand], cwd=wt)[0] != 0:
+                    continue
+                sh(["git", "apply", cand], cwd=wt)
+                ok = "BUILD-OK" in sh("go build ./... && go build -tags verif ./... && echo BUILD-OK", cwd=wt)[1]
+                sh(["git", "checkout", "--", "."], cwd=wt)
+                if ok:
                     used = cand
                     break
             res["patch"] = os.path.basename(used) if used else None
